@@ -209,8 +209,12 @@ def run(chk, repo):
         fmt = dict(d)
         fmt["sname"] = sname
         fmt.setdefault("params_def", "")
-        chk.decide(tuple(names_) == ALIASES.get(sname), "C14.generate", W("window[%s]" % sname),
-                   "names %s" % (names_,), why="documented names are %s" % (ALIASES.get(sname),), node=node)
+        if sname in ALIASES:
+            chk.decide(tuple(names_) == ALIASES.get(sname), "C14.generate", W("window[%s]" % sname),
+                       "names %s" % (names_,), why="documented names are %s" % (ALIASES.get(sname),), node=node)
+        else:
+            chk.note("C14.generate", W("window[%s]" % sname), "strategy not on record: the generic rules (prefix, "
+                     "symmetry) are applied, no closed form is compared")
         try:
             ptxt = tp.format(**fmt)
             stxt = ts.format(**fmt)
@@ -262,8 +266,9 @@ def run(chk, repo):
                        why="documented closed form is %s" % DOC_FORMS[sname], node=node)
         defaults = {a.arg: unparse(v) for a, v in zip(pf.args.args[-len(pf.args.defaults):], pf.args.defaults)} if pf.args.defaults else {}
         wantd = {"blackman": {"alpha": "0.16"}, "cos": {"alpha": "1"}}.get(sname, {})
-        chk.decide(defaults == wantd, "C14.formula", Wn, "parameters %s" % (defaults or "none"),
-                   why="documented defaults are %s" % wantd, node=node)
+        if sname in ALIASES:
+            chk.decide(defaults == wantd, "C14.formula", Wn, "parameters %s" % (defaults or "none"),
+                       why="documented defaults are %s" % wantd, node=node)
         # symmetry
         chk.decide(symmetric_in_n(pb[0].value.elt, {}), "C14.symmetry", Wn, "F(size - n) == F(n) for F = %s" % d.get("formula"),
                    why="formula is not built from n-symmetric atoms: the symmetric window would not be a palindrome", node=node)
@@ -281,9 +286,15 @@ def run(chk, repo):
                                why="harmonic(s) %s are multiples of %d: shifted copies do not sum to a constant" % (bad, m),
                                node=node)
         if not d.get("distinct", True):
-            chk.decide(sname == "rect" and "n" not in fp.symbols(), "C14.prefix", Wn,
+            chk.decide("n" not in fp.symbols(), "C14.prefix", Wn,
                        "non-distinct entry is constant in n (periodic == symmetric)", why="only a constant window may be "
                        "shared between both dictionaries", node=node)
     chk.floor("C14.prefix", nfun, 14, "generated window functions")
-    chk.decide(seen_names == set(ALIASES), "C14.generate", W("window._content_generation_table"),
-               "strategies: %s" % sorted(seen_names), why="documented strategies are %s" % sorted(ALIASES), node=table_node)
+    # names registered twice would shadow each other
+    allnames = [n for d_, _ in rows for n in d_.get("names", ())]
+    dup = sorted({n for n in allnames if allnames.count(n) > 1})
+    chk.decide(not dup, "C14.generate", W("window._content_generation_table"), "no alias registered twice",
+               why="alias(es) %s appear in two entries: the later strategy steals the name" % dup, node=table_node)
+    chk.decide(seen_names >= set(ALIASES), "C14.generate", W("window._content_generation_table"),
+               "strategies: %s" % sorted(seen_names), why="documented strategies missing: %s" % sorted(set(ALIASES) - seen_names),
+               node=table_node)
